@@ -168,6 +168,10 @@ def r2(R2, cfg, F):
 def r3(R3, cfg, F):
     cl = F.body(C + 'get_or_try_init_default::{closure#0}')
     outer = F.body(C + 'get_or_try_init_default')
+    if outer and not cl:
+        # (the `once.get_or_try_init(|| ..)` call moved into a private helper written in place: the closure is the one built there)
+        made = [s['rv']['closure'] for _, _, s in outer.assigns() if s['rv']['k'] == 'aggregate' and s['rv'].get('closure')]
+        cl = F.body(made[0]) if len(made) == 1 else None
     if not cl or not outer:
         R3.missing(cfg, 'get_or_try_init_default and its closure')
         return
